@@ -12,7 +12,7 @@ import sys
 
 sys.path.insert(0, os.path.dirname(os.path.abspath(__file__)))
 import refchk  # noqa: E402
-from common import REPO, Outcome, Rng, err_class, hx, load_spec, run_driver  # noqa: E402
+from common import REPO, Outcome, Rng, err_class, hx, load_spec, run_driver, shared_io  # noqa: E402
 
 logging.disable(logging.CRITICAL)
 
@@ -107,7 +107,7 @@ def with_deadline(seconds, fn, *args):
 def real_rt(data):
     """the real code's answer to the `rt` op"""
     ChkIo, _ = real_api()
-    io = ChkIo()
+    io = shared_io()[0]
     try:
         d = io.decode_chk_binary_data(data)
     except Exception as e:  # noqa: BLE001
@@ -126,7 +126,7 @@ def real_rt(data):
 def real_dec(data, layouts):
     ChkIo, _ = real_api()
     try:
-        d = ChkIo().decode_chk_binary_data(data)
+        d = shared_io()[0].decode_chk_binary_data(data)
     except Exception as e:  # noqa: BLE001
         return "ERR " + err_class(e)
     return "OK " + dump_real(d, layouts)
@@ -139,6 +139,13 @@ def gen_name(rng, registered):
         return rng.choice(registered)
     if r < 0.45:
         return rng.choice(KNOWN_UNREGISTERED)
+    if r < 0.50:
+        # a name that differs from a recognised one only in letter case is just another unknown section
+        nm = rng.choice(registered)
+        cand = [nm.upper(), nm.lower(), nm.swapcase(), nm[:1].lower() + nm[1:]]
+        cand = [c for c in cand if c != nm and c not in registered]
+        if cand:
+            return rng.choice(cand)
     if r < 0.60:
         return bytes(rng.choice(b"ABCDEFGHIJKLMNOPQRSTUVWXYZ abcdxyz0123456789") for _ in range(4))
     if r < 0.70:
@@ -415,6 +422,16 @@ def run(prop, tier, seed, layouts_json_path):
             for rep in range(3 * scale):
                 p = gen_known_payload(rng, nm, layouts[nm])
                 cases.append(("single:" + nm.decode(), nm + struct.pack("<I", len(p)) + p, True))
+    if prop in ("C01", "C06", "C19"):
+        # a name that differs from a recognised one only in letter case is an unknown section: with a payload that
+        # would be legal for the recognised section, and with one that would not
+        for nm in registered:
+            for var in (nm.upper(), nm.lower(), nm.swapcase()):
+                if var != nm and var not in registered:
+                    legal = gen_known_payload(rng, nm, layouts[nm])
+                    cases.append(("casevariant", var + struct.pack("<I", len(legal)) + legal + b"TAIL" + struct.pack("<I", 1) + b"x", True))
+                    cases.append(("casevariant", b"HEAD" + struct.pack("<I", 0) + var + struct.pack("<I", 3) + b"abc", True))
+                    break
     if prop == "C19":
         for tag, data in gen_malformed(rng, layouts, registered, fx, 400 * scale):
             cases.append((tag, data, False))
@@ -510,7 +527,45 @@ def run(prop, tier, seed, layouts_json_path):
             v = c06_oracle(d, data, spec)
             if v:
                 out.violations.append({"oracle": "decoded fields = little-endian values at the spec offsets; encode writes them there", "tag": tag, "hex": data.hex(), "detail": v})
+            # ... and again after the first result was edited in place: a decode reads the BYTES, never an earlier result
+            if len(data) < 200000:
+                scribble(d)
+                try:
+                    d_again = shared_io()[0].decode_chk_binary_data(data)
+                    v = c06_oracle(d_again, data, spec)
+                except Exception as ex:  # noqa: BLE001
+                    v = "second decode raised " + err_class(ex)
+                if v:
+                    out.violations.append({"oracle": "decoding the same bytes again (after the first result was edited in place) exposes the values at the spec offsets", "tag": tag, "hex": data.hex(), "detail": v})
     return out
+
+
+def scribble(decoded):
+    """edit every mutable container reachable from a decoded model in place"""
+    import dataclasses
+
+    seen = set()
+
+    def walk(o, depth=0):
+        if id(o) in seen or depth > 6:
+            return
+        seen.add(id(o))
+        if isinstance(o, list):
+            for x in list(o):
+                walk(x, depth + 1)
+            if o:
+                o.append(o[0])
+                o.reverse()
+            else:
+                o.append(0)
+        elif isinstance(o, dict):
+            for x in list(o.values()):
+                walk(x, depth + 1)
+        elif dataclasses.is_dataclass(o) and not isinstance(o, type):
+            for f in dataclasses.fields(o):
+                walk(getattr(o, f.name, None), depth + 1)
+
+    walk(decoded)
 
 
 def normalise_layout(l):
